@@ -485,3 +485,40 @@ func asSetCountsOncePerSegment(c *core.Ctx, rule string) {
 	})
 	c.Check(n >= 1, rule, f.Name()+" AS_SET branch", f.Decl.Pos(), "no statement under `Type == ASSet` found in the loop")
 }
+
+// bodyLengthIsTheDeclaredLength: the body decoders fail by running off the end of the buffer when a message is shorter
+// than its header says.  That only works when the length they are handed is the declared one (header length minus the
+// header size): a length adjusted to what is left in the buffer makes a truncated message decode as a shorter valid one.
+func bodyLengthIsTheDeclaredLength(c *core.Ctx, rule string) {
+	f := c.MustFunc("protocols/bgp/packet.Decode")
+	if f == nil {
+		return
+	}
+	c.Analysed(f)
+	lenField := c.P.Field("protocols/bgp/packet", "BGPHeader", "Length")
+	minLen := c.P.Object("protocols/bgp/packet", "MinLen")
+	declared := func(e ast.Expr) bool {
+		be, ok := core.Unparen(e).(*ast.BinaryExpr)
+		return ok && be.Op.String() == "-" && core.FieldOf(f.Pkg, be.X) == lenField && lenField != nil && core.ObjOf(f.Pkg, be.Y) == minLen && minLen != nil
+	}
+	n := 0
+	for _, call := range core.Calls(f.Pkg, f.Decl.Body, core.KeyIs("protocols/bgp/packet.decodeMsgBody")) {
+		if len(call.Args) < 3 {
+			continue
+		}
+		n++
+		ok := declared(call.Args[2])
+		if id, isId := core.Unparen(call.Args[2]).(*ast.Ident); isId {
+			defs := core.DefsOf(f, core.ObjOf(f.Pkg, id))
+			ok = len(defs) > 0
+			for _, d := range defs {
+				if !declared(d) {
+					ok = false
+				}
+			}
+		}
+		c.Check(ok, rule, f.Name()+" hands the body decoder the declared body length", call.Args[2].Pos(),
+			"the body length given to the body decoder is not (on every path) header.Length - MinLen: a length clamped to the bytes available turns a truncated message into a shorter valid one instead of a decoding error")
+	}
+	c.Check(n == 1, rule, f.Name()+" calls decodeMsgBody", f.Decl.Pos(), fmt.Sprintf("%d calls found", n))
+}
